@@ -453,6 +453,40 @@ def run(spec, ctx):
                                     ("$[?count(@.*)]", False, "value-function-as-test"), ("$[?count('abc') == 3]", False, "argument-kind"), ("$[?count(@.*) == 1]", True, "well-typed")):
                 compile_case(ctx, e, text, ok, "registry-history", label)
                 ctx.cell("configurations", "another environment changed its own function registry")
+        # environments that register their own functions - a plain callable, a class with a validate() method, a typed
+        # FilterFunction: queries refused INSIDE the argument list of each (out-of-range index, syntax error, ill-typed
+        # comparison, missing parenthesis), and after every one of them the fixed queries get the verdicts they always get
+        from jsonpath.function_extensions import ExpressionType, FilterFunction
+
+        class Typed(FilterFunction):
+            arg_types = [ExpressionType.NODES]
+            return_type = ExpressionType.VALUE
+
+            def __call__(self, nodes):
+                return None
+
+        class Validating:
+            def validate(self, env_, args, token):
+                return args
+
+            def __call__(self, *a):
+                return None
+
+        for make in (lambda: jsonpath.JSONPathEnvironment(), lambda: jsonpath.JSONPathEnvironment(filter_caching=False)):
+            e = make()
+            e.function_extensions.update({"plain": lambda *a: None, "checked": Validating(), "typed": Typed()})
+            for fn in ("plain", "checked", "typed", "count", "plain(checked", "typed(plain"):
+                opener, closer = fn + "(", ")" * (1 + fn.count("("))
+                for inner in ("@[9007199254740992]", "@[01]", "@.a[", "@.a ==", "@.* == 1", "@.a, ", "@..[?true]", "@['\\z']", "@.a[?nope(@)]", "$[1:2:99999999999999999999]", "@.a", "@.*"):
+                    text = "$[?%s%s%s == 1]" % (opener, inner, closer)
+                    out = impl.call(e.compile, text)
+                    ctx.evaluation()
+                    ctx.count("compiles_with_the_argument_list_of_a_registered_function")
+                    if not out.ok and not isinstance(out.exc, jsonpath.JSONPathError):
+                        ctx.violation("compile-raised-outside-the-family:%s" % type(out.exc).__name__, {"text": text, "class": "own-functions"}, {"error": out.desc()})
+                    for t_, ok_, lab_ in SENTINELS:
+                        compile_case(ctx, e, t_, ok_, "sentinel-after-refusals", lab_ + " (after %s)" % ("a refusal" if not out.ok else "an accepted query") )
+            ctx.cell("configurations", "own functions of three kinds registered")
     elif kind == "syntactic":
         mx, mn = (2 ** 53) - 1, -(2 ** 53) + 1
         nenv = narrow_env()
